@@ -78,6 +78,9 @@ func (s *SwitchPool) GetOne(ctx context.Context, client client.VPC, zone string,
 
 	switch selectOptions.VSwitchSelectPolicy {
 	case VSwitchSelectionPolicyRandom:
+		// shuffle a copy: the candidate list belongs to the caller (it is often a shared
+		// configuration slice, read by other goroutines at the same time)
+		ids = append([]string(nil), ids...)
 		rand.Shuffle(len(ids), func(i, j int) { ids[i], ids[j] = ids[j], ids[i] })
 	case VSwitchSelectionPolicyMost:
 		// lookup all vsw in cache and get one matched
